@@ -131,7 +131,10 @@ def gen_op(rng):
             attr = "tag"
         else:
             meta = True
-    return ("reg", classes, rng.random() < 0.7, rng.choice([0, 0, 0, 1, 1, 2, -1]), attr, meta)
+    op = ("reg", classes, rng.random() < 0.7, rng.choice([0, 0, 0, 1, 1, 2, -1]), attr, meta)
+    if rng.random() < 0.12:
+        op = op + (rng.randrange(8),)   # re-use the function of an earlier registration of this history
+    return op
 
 
 def make_case(i, rng, tier):
@@ -248,10 +251,17 @@ def run_history(ops, cls, cache=True, base_ops=None):
     reg = TypeRegistry("vmon", cache=cache, base=base)
     regs = []
     reads = []
+    funcs = []
     for j, op in enumerate(ops):
         if op[0] == "reg":
             tag = ("own", j)
-            _register(reg, op, tag, cls)
+            again = op[6] if len(op) > 6 else None
+            if again is not None and funcs:
+                # a registration is defined by its criteria: registering a function again ADDS a registration
+                tag, fn = funcs[again % len(funcs)]
+                _register(reg, op, tag, cls, fn=fn)
+            else:
+                funcs.append((tag, _register(reg, op, tag, cls)))
             regs.append((op, tag))
         elif op[0] == "breg":
             tag = ("base", 100 + j)
@@ -267,19 +277,22 @@ def run_history(ops, cls, cache=True, base_ops=None):
     return reads
 
 
-def _register(reg, op, tag, cls):
+def _register(reg, op, tag, cls, fn=None):
     _, classes, sub, prio, attr, meta = op[:6]
 
     def f(*a, **k):
         return tag
 
     f.vmon_tag = tag
+    if fn is not None:
+        f = fn      # the SAME function object registered once more, under other criteria
     kw = {"allow_subclasses": sub, "priority": prio}
     if attr:
         kw["attr"] = attr
     if meta:
         kw["metaclass"] = Meta
     reg.register(*[cls[c] for c in classes], **kw)(f)
+    return f
 
 
 def diagnose(ops, cls, reads):
